@@ -274,7 +274,14 @@ func (s *Sim) evmScenario(hs *EvmStats) error {
 					BlockNumber: big.NewInt(h), Time: big.NewInt(b.request().Header.Time.Unix()), Difficulty: big.NewInt(1), BaseFee: big.NewInt(0), GasLimit: 25_000_000}
 				vm := ethvm.NewEVM(bctx, ethcore.NewEVMTxContext(msg), ref, evm.RIGOMainnetEVMCtrlerChainConfig, ethvm.Config{NoBaseFee: true})
 				ref.Prepare(common.BytesToHash(bt.Hash), s.txIndex(b))
-				refRes, refErr = ethcore.ApplyMessage(vm, msg, new(ethcore.GasPool).AddGas(25_000_000))
+				// the node admits a transaction only if the sender covers gas limit x price + amount (C16);
+				// with a zero fee cap go-ethereum's own purchase check would let a poorer sender through
+				need := new(big.Int).Add(amt, new(big.Int).Mul(price, new(big.Int).SetUint64(spec.Gas)))
+				if ref.GetBalance(fromA).Cmp(need) < 0 {
+					refErr = fmt.Errorf("sender cannot cover gas limit x price + amount (admission rule)")
+				} else {
+					refRes, refErr = ethcore.ApplyMessage(vm, msg, new(ethcore.GasPool).AddGas(25_000_000))
+				}
 				refLogs = ref.GetLogs(common.BytesToHash(bt.Hash), common.Hash{})
 			}
 			d := s.node.Deliver(spec.Type, bt.Bytes)
@@ -300,7 +307,7 @@ func (s *Sim) evmScenario(hs *EvmStats) error {
 			if refFailed {
 				// the node undoes a failed contract transaction completely (no fee, no nonce): so does the reference world here
 				if refErr == nil && !bytes.Equal(refRes.ReturnData, d.Data) {
-					hs.Mismatches = append(hs.Mismatches, fmt.Sprintf("%s: revert data differ", where))
+					hs.Mismatches = append(hs.Mismatches, fmt.Sprintf("%s: revert data differ: node %x (log %.120q), reference %x (%v) [amount %s gas %d price %s nonce %d; sender balance now: node %s]", where, d.Data, d.Log, refRes.ReturnData, refRes.Err, spec.Amount, spec.Gas, spec.GasPrice, spec.Nonce, s.node.App.VerifAcctCtrler().FindAccount(spec.From, true).GetBalance().Dec()))
 				}
 				if refErr == nil && refRes.Err == ethvm.ErrOutOfGas {
 					hs.OutOfGas++
